@@ -364,6 +364,23 @@ class Function:
                     label = None
                 b.succs.append((s, label))
                 s.preds.append((b, label))
+        # drop blocks that are unreachable from the entry (code under a disabled
+        # log level, pruned as trivially false by the CFG builder): it does not
+        # exist in the real build either
+        seen = {self.entry.id}
+        work = [self.entry]
+        while work:
+            b = work.pop()
+            for s2, _ in b.succs:
+                if s2.id not in seen:
+                    seen.add(s2.id)
+                    work.append(s2)
+        seen.add(self.exit.id)
+        for bid in list(self.blocks):
+            if bid not in seen:
+                del self.blocks[bid]
+        for b in self.blocks.values():
+            b.preds = [(p, l) for (p, l) in b.preds if p.id in seen]
         self._dom = None
         self._pdom = None
         self._reach = None
